@@ -229,6 +229,8 @@ def r_append(F, R, cat=None, only=None):
                     st = store_type(e)
                     if adt in STATE_MACHINES and f is None:
                         pass  # in-place transition of a state machine: R-NOWRITE-ON-REJECT / R-OVF
+                    elif st in STATE_MACHINES and not rest and any(str(p_).startswith(st + "::") for p_ in (b.d.get("inlined") or [])):
+                        pass  # the same transition, spliced in from a private method of the state machine
                     elif is_storage_type(st, F):
                         viol = "item storage of type %s replaced by assignment" % st
                     elif "[]" in rest and st == "?elem":
@@ -263,6 +265,19 @@ def r_append(F, R, cat=None, only=None):
                     if peel:
                         continue
                     viol += " (R-PEEL does not hold)"
+                elif e.tag == ("Vec", "pop") and e.ctx.body.kind == "Closure":
+                    pc_ = e.ctx.parent
+                    enc_above = False
+                    while pc_ is not None:
+                        if any(callee_tag(t.get("callee")) == ("Huffman", "encode") for (_, t) in pc_.body.calls()):
+                            enc_above = True
+                        pc_ = pc_.parent
+                    if enc_above:
+                        # `(partial != 0).then(|| bytes.pop()..)`: the peel of the trailing partial byte,
+                        # hosted in a closure that a combinator runs -- a shape R-PEEL does not read
+                        R.undecided_site("R-APPEND", b.label(), "the trailing partial byte is popped inside a closure at %s: whether "
+                                         "it is re-presented to the encoder is not decided" % e.where())
+                        continue
                 bad += 1
                 R.check("R-APPEND", b.label(), False,
                         construct="%s on %s" % (viol, f or "self"), where=e.where(),
